@@ -907,8 +907,9 @@ def run(args):
         "label values are addresses computed as 2 bytes per data word and 1 byte per `nop` (address bookkeeping is C10's subject)",
         "section programs (mode c13) run outside macros; the one macro call that occurs there (`name mymac`, body = one `nop`, no "
         "parameters) is modelled as label + one byte.  Macro-local label spaces (mode c13l, Model/SymLoc): bodies are parameter-free "
-        "(substitution is C11's subject), contain labels, data words, SET and nested constructs / macro calls, no sections, "
-        "declarations or temporary symbols; a reference in a called macro to a label of the calling body is compared with the model "
+        "(substitution is C11's subject), contain labels, data words, SET, nested constructs / macro calls and temporary symbols "
+        "(composed names `.name` judged by Spec/LocTmp + LocScope; `$$name` and nameless ones compared with the model only), no sections "
+        "or declarations; a reference in a called macro to a label of the calling body is compared with the model "
         "but not judged by the spec (the manual is silent)",
         "ENUM/NEXTENUM with the default ENUMCONF (increment 1, no segment)"]
     return common.conclude(res, proof_problems, spec_fail, corr_fail, len(cases) + n_loc)
